@@ -182,7 +182,12 @@ class Slice(object):
             self._start, self._stop, step = s.start, s.stop, s.step
             if step is None:
                 step = 1
-            if step <= 0 or int(step) != step:
+            try:
+                bad_step = step <= 0 or int(step) != step
+            except (OverflowError, ValueError):
+                # infinity and nan can not be converted to int
+                bad_step = True
+            if bad_step:
                 raise lena.core.LenaValueError(
                     "step must be a natural number (integer >= 1)"
                 )
